@@ -179,6 +179,8 @@ func injectInto(t *rapid.T, c *core.Ctx, f *model.File, elem jv.V, defOnly bool)
 		}
 	}
 	walk(root, nil, 0, false)
+	// items of a DECLARED array type and the value schema of a map type go through other code paths
+	sites = append(sites, site{nil, "definition-array-items"}, site{nil, "map-additional-properties"}, site{nil, "definition-nested-array-items"})
 	var usable []site
 	for _, s := range sites {
 		if defOnly && s.kind != "definition" {
@@ -201,6 +203,29 @@ func injectInto(t *rapid.T, c *core.Ctx, f *model.File, elem jv.V, defOnly bool)
 		return root, nil
 	}
 	s := usable[rapid.IntRange(0, len(usable)-1).Draw(t, "site")]
+	switch s.kind {
+	case "definition-array-items", "definition-nested-array-items":
+		arr := jv.ObjV(jv.Field("type", jv.StrV("array")), jv.Field("items", elem))
+		if s.kind == "definition-nested-array-items" {
+			arr = jv.ObjV(jv.Field("type", jv.StrV("array")), jv.Field("items", arr))
+		}
+		kw := "$defs"
+		if root.Has("definitions") {
+			kw = "definitions"
+		}
+		defs, _ := root.Get(kw)
+		if defs.K != jv.Obj {
+			defs = jv.ObjV()
+		}
+		return root.Set(kw, defs.Set("InjectedArr", arr)), &injection{site: s.kind}
+	case "map-additional-properties":
+		props, _ := root.Get("properties")
+		if props.K != jv.Obj {
+			props = jv.ObjV()
+		}
+		m := jv.ObjV(jv.Field("type", jv.StrV("object")), jv.Field("additionalProperties", elem))
+		return root.Set("properties", props.Set("zzInjectedMap", m)), &injection{site: s.kind}
+	}
 	cur := root
 	for _, st := range s.path {
 		if st.idx >= 0 {
